@@ -223,7 +223,8 @@ func TestC12Node(t *testing.T) {
 		m.EC.Period = 30 * time.Second
 		// EC model: a short chain beyond the bootstrap epoch, three participants
 		table := gpbft.PowerEntries{}
-		for id := uint64(1); id <= 3; id++ {
+		// (sixteen members, so that a burst of maximum-size QUALITY votes can fill a WAL file)
+		for id := uint64(1); id <= 16; id++ {
 			table = append(table, gpbft.PowerEntry{ID: gpbft.ActorID(id), Power: gpbft.StoragePower{Int: big.NewInt(10)}, PubKey: vcrypto.PubKey(id)})
 		}
 		ecm := vec.New()
@@ -322,7 +323,7 @@ func TestC12Node(t *testing.T) {
 			vgen.Chain(base, &gpbft.TipSet{Epoch: 3, Key: []byte("value-b"), PowerTable: vgen.DetCid("vb")}),
 		}
 		var trace []string
-		restarts, conflictAfterRestart, olderAfter, rebroadcastAfterRestart, tornTails := 0, 0, 0, 0, 0
+		restarts, conflictAfterRestart, olderAfter, rebroadcastAfterRestart, tornTails, bursts := 0, 0, 0, 0, 0, 0
 		requested := map[slot]map[string]bool{}
 		var history []struct {
 			sender uint64
@@ -331,8 +332,38 @@ func TestC12Node(t *testing.T) {
 		var maxRequested uint64
 		steps := rapid.IntRange(2, 12).Draw(t, "steps")
 		for s := 0; s < steps; s++ {
-			action := rapid.SampledFrom([]string{"broadcast", "broadcast", "broadcast", "broadcast", "rebroadcast", "restart", "crash-restart", "torn-crash-restart"}).Draw(t, "action")
+			action := rapid.SampledFrom([]string{"broadcast", "broadcast", "broadcast", "broadcast", "rebroadcast", "restart", "crash-restart", "torn-crash-restart", "big-burst"}).Draw(t, "action")
 			switch action {
+			case "big-burst":
+				// QUALITY votes of many identities for one maximum-size chain (128 tipsets with
+				// 760-byte keys, about 100 KiB per WAL record): more than 1 MiB goes into one log
+				// file, which therefore rolls over
+				if bursts >= 1 {
+					continue
+				}
+				bursts++
+				inst := maxRequested
+				big := &gpbft.ECChain{TipSets: []*gpbft.TipSet{base}}
+				for i := 1; i < gpbft.ChainMaxLen; i++ {
+					big.TipSets = append(big.TipSets, &gpbft.TipSet{Epoch: base.Epoch + int64(i), Key: vgen.DetBytes(gpbft.TipsetKeyMaxLen, "bigkey", s, i), PowerTable: vgen.DetCid("bigpt", i)})
+				}
+				for sender := uint64(3); sender <= 16; sender++ {
+					p := gpbft.Payload{Instance: inst, Round: 0, Phase: gpbft.QUALITY_PHASE, Value: big, SupplementalData: gpbft.SupplementalData{PowerTable: vgen.DetCid("c12supp")}}
+					sb := &gpbft.SignatureBuilder{NetworkName: m.NetworkName, ParticipantID: gpbft.ActorID(sender), Payload: p, PubKey: vcrypto.PubKey(sender), PayloadToSign: p.MarshalForSigning(m.NetworkName)}
+					sig := vcrypto.RawSign(sb.PubKey, sb.PayloadToSign)
+					k := slot{p.Instance, gpbft.ActorID(sender), p.Round, p.Phase}
+					if requested[k] == nil {
+						requested[k] = map[string]bool{}
+					}
+					requested[k][string(sig)] = true
+					history = append(history, struct {
+						sender uint64
+						p      gpbft.Payload
+					}{sender, p})
+					cur.f3.Broadcast(context.Background(), sb, sig, nil)
+					time.Sleep(5 * time.Millisecond)
+				}
+				trace = append(trace, fmt.Sprintf("big-burst(i%d, 14 senders)", inst))
 			case "torn-crash-restart":
 				// the process dies in the middle of a WAL append: a strict prefix of a record is
 				// left at the end of the newest log file; the old node is abandoned
@@ -480,7 +511,7 @@ func TestC12Node(t *testing.T) {
 		npub := len(rec.pubs)
 		rec.mu.Unlock()
 		nt := conflictAfterRestart > 0 || olderAfter > 0 || rebroadcastAfterRestart > 0
-		vev.Case(c12, vev.Digest("node", fmt.Sprint(trace)), nt, "node-history", fmt.Sprintf("node-restarts>0:%v", restarts > 0), fmt.Sprintf("node-conflict-after-restart:%v", conflictAfterRestart > 0), fmt.Sprintf("node-older-instance-after-restart:%v", olderAfter > 0), fmt.Sprintf("node-published>0:%v", npub > 0), fmt.Sprintf("node-torn-wal-tail:%v", tornTails > 0))
+		vev.Case(c12, vev.Digest("node", fmt.Sprint(trace)), nt, "node-history", fmt.Sprintf("node-restarts>0:%v", restarts > 0), fmt.Sprintf("node-conflict-after-restart:%v", conflictAfterRestart > 0), fmt.Sprintf("node-older-instance-after-restart:%v", olderAfter > 0), fmt.Sprintf("node-published>0:%v", npub > 0), fmt.Sprintf("node-torn-wal-tail:%v", tornTails > 0), fmt.Sprintf("node-wal-file-over-1MiB:%v", bursts > 0))
 		vev.Sample(c12, func() any { return map[string]any{"kind": "node-history", "trace": trace, "publications": npub} })
 	})
 }
